@@ -1,11 +1,14 @@
+#[cfg(not(oxidd_verif))]
 use std::sync::atomic::{AtomicU32, Ordering::Relaxed};
 
 /// Worker thread pool
+#[cfg(not(oxidd_verif))]
 pub struct Workers {
     pub(crate) pool: rayon::ThreadPool,
     split_depth: AtomicU32,
 }
 
+#[cfg(not(oxidd_verif))]
 impl Workers {
     pub(crate) fn new(threads: u32) -> Self {
         let stack_size = std::env::var("OXIDD_STACK_SIZE")
@@ -33,6 +36,7 @@ impl Workers {
     }
 }
 
+#[cfg(not(oxidd_verif))]
 impl oxidd_core::WorkerPool for Workers {
     #[inline]
     fn current_num_threads(&self) -> usize {
@@ -77,5 +81,307 @@ impl oxidd_core::WorkerPool for Workers {
                 num_threads: ctx.num_threads() as u32,
             })
         })
+    }
+}
+
+#[cfg(oxidd_verif)]
+pub use stub::Workers;
+
+/// Deterministic stand-in for the rayon pool: a fixed set of worker threads
+/// and one shared job queue. Every "who takes the job" is a decision of the
+/// simulator installed via `oxidd_core::verif`.
+#[cfg(oxidd_verif)]
+mod stub {
+    use std::cell::Cell;
+    use std::collections::VecDeque;
+    use std::sync::Arc;
+    use std::sync::atomic::{AtomicBool, AtomicU32, Ordering::Relaxed, Ordering::SeqCst};
+
+    use oxidd_core::verif::{self, site};
+
+    use crate::verif_sync::Mutex;
+
+    /// Type-erased reference to a job living on some stack or heap
+    #[derive(Clone, Copy)]
+    struct JobRef {
+        ptr: *const (),
+        exec: unsafe fn(*const ()),
+    }
+    // SAFETY: jobs are only created for `Send` closures
+    unsafe impl Send for JobRef {}
+
+    struct StackJob<F, R> {
+        f: Cell<Option<F>>,
+        result: Cell<Option<R>>,
+        done: AtomicBool,
+    }
+    impl<F: FnOnce() -> R + Send, R: Send> StackJob<F, R> {
+        fn new(f: F) -> Self {
+            Self {
+                f: Cell::new(Some(f)),
+                result: Cell::new(None),
+                done: AtomicBool::new(false),
+            }
+        }
+        fn as_job_ref(&self) -> JobRef {
+            unsafe fn exec<F: FnOnce() -> R + Send, R: Send>(ptr: *const ()) {
+                // SAFETY: `ptr` was created from a `&StackJob<F, R>` that
+                // outlives the execution (the owner waits for `done`)
+                let this = unsafe { &*ptr.cast::<StackJob<F, R>>() };
+                let f = this.f.take().unwrap();
+                this.result.set(Some(f()));
+                this.done.store(true, SeqCst);
+            }
+            JobRef {
+                ptr: std::ptr::from_ref(self).cast(),
+                exec: exec::<F, R>,
+            }
+        }
+        fn run_inline(&self) {
+            let f = self.f.take().unwrap();
+            self.result.set(Some(f()));
+            self.done.store(true, SeqCst);
+        }
+    }
+
+    type BroadcastFn = Arc<dyn Fn(oxidd_core::BroadcastContext) + Send + Sync>;
+
+    struct Shared {
+        threads: usize,
+        queue: Mutex<VecDeque<JobRef>>,
+        /// per-worker jobs (broadcasts)
+        targeted: Vec<Mutex<VecDeque<JobRef>>>,
+        /// per-worker detached broadcast closures
+        detached: Vec<Mutex<VecDeque<BroadcastFn>>>,
+        shutdown: AtomicBool,
+    }
+
+    thread_local! {
+        /// (address of the pool this thread works for, worker index)
+        static WORKER: Cell<(usize, usize)> = const { Cell::new((0, 0)) };
+    }
+
+    pub(crate) struct StubPool {
+        shared: Arc<Shared>,
+    }
+
+    impl StubPool {
+        fn worker_index(&self) -> Option<usize> {
+            let (pool, idx) = WORKER.with(|w| w.get());
+            if pool == Arc::as_ptr(&self.shared).addr() { Some(idx) } else { None }
+        }
+
+        /// Execute `op` on every worker without waiting for the result
+        pub(crate) fn spawn_broadcast(
+            &self,
+            op: impl Fn(oxidd_core::BroadcastContext) + Send + Sync + 'static,
+        ) {
+            let op: BroadcastFn = Arc::new(op);
+            for q in &self.shared.detached {
+                q.lock().push_back(op.clone());
+            }
+        }
+
+        fn worker_loop(shared: Arc<Shared>, index: usize) {
+            let _guard = verif::thread_start("oxidd mi worker");
+            WORKER.with(|w| w.set((Arc::as_ptr(&shared).addr(), index)));
+            loop {
+                let detached = shared.detached[index].lock().pop_front();
+                if let Some(op) = detached {
+                    op(oxidd_core::BroadcastContext {
+                        index: index as u32,
+                        num_threads: shared.threads as u32,
+                    });
+                    continue;
+                }
+                let job = shared.targeted[index].lock().pop_front();
+                if let Some(job) = job {
+                    // SAFETY: the creator of the job waits for its completion
+                    unsafe { (job.exec)(job.ptr) };
+                    continue;
+                }
+                verif::yield_point(site::POOL_TAKE);
+                let job = shared.queue.lock().pop_front();
+                if let Some(job) = job {
+                    // SAFETY: as above
+                    unsafe { (job.exec)(job.ptr) };
+                    continue;
+                }
+                if shared.shutdown.load(SeqCst) {
+                    break;
+                }
+                verif::spin(site::POOL_IDLE);
+            }
+            drop(shared);
+        }
+
+        /// Run `op` inside the pool and wait for the result
+        fn in_worker_cold<R: Send>(&self, op: impl FnOnce() -> R + Send) -> R {
+            let job = StackJob::new(op);
+            self.shared.queue.lock().push_back(job.as_job_ref());
+            while !job.done.load(SeqCst) {
+                verif::spin(site::POOL_WAIT);
+            }
+            job.result.take().unwrap()
+        }
+
+        fn install<R: Send>(&self, op: impl FnOnce() -> R + Send) -> R {
+            if self.worker_index().is_some() { op() } else { self.in_worker_cold(op) }
+        }
+
+        fn join<RA: Send, RB: Send>(
+            &self,
+            op_a: impl FnOnce() -> RA + Send,
+            op_b: impl FnOnce() -> RB + Send,
+        ) -> (RA, RB) {
+            if self.worker_index().is_none() {
+                return self.in_worker_cold(|| self.join(op_a, op_b));
+            }
+            let job_b = StackJob::new(op_b);
+            let job_b_ref = job_b.as_job_ref();
+            self.shared.queue.lock().push_back(job_b_ref);
+            verif::yield_point(site::POOL_JOIN);
+            let ra = op_a();
+            loop {
+                if job_b.done.load(SeqCst) {
+                    break;
+                }
+                let mut q = self.shared.queue.lock();
+                if let Some(pos) = q.iter().position(|j| std::ptr::eq(j.ptr, job_b_ref.ptr)) {
+                    // nobody took the job so far
+                    q.remove(pos);
+                    drop(q);
+                    job_b.run_inline();
+                    break;
+                }
+                // Somebody else executes `op_b`; help with other jobs meanwhile
+                let other = q.pop_front();
+                drop(q);
+                match other {
+                    // SAFETY: the creator of the job waits for its completion
+                    Some(job) => unsafe { (job.exec)(job.ptr) },
+                    None => verif::spin(site::POOL_WAIT),
+                }
+            }
+            (ra, job_b.result.take().unwrap())
+        }
+
+        fn broadcast<R: Send>(
+            &self,
+            op: impl Fn(oxidd_core::BroadcastContext) -> R + Sync,
+        ) -> Vec<R> {
+            let n = self.shared.threads;
+            let own = self.worker_index();
+            let op = &op;
+            let jobs: Vec<_> = (0..n)
+                .map(|index| {
+                    StackJob::new(move || {
+                        op(oxidd_core::BroadcastContext {
+                            index: index as u32,
+                            num_threads: n as u32,
+                        })
+                    })
+                })
+                .collect();
+            for (index, job) in jobs.iter().enumerate() {
+                if Some(index) != own {
+                    self.shared.targeted[index].lock().push_back(job.as_job_ref());
+                }
+            }
+            if let Some(index) = own {
+                jobs[index].run_inline();
+            }
+            for job in &jobs {
+                while !job.done.load(SeqCst) {
+                    verif::spin(site::POOL_WAIT);
+                }
+            }
+            jobs.iter().map(|j| j.result.take().unwrap()).collect()
+        }
+    }
+
+    /// Worker thread pool
+    pub struct Workers {
+        pub(crate) pool: StubPool,
+        split_depth: AtomicU32,
+    }
+
+    impl Workers {
+        pub(crate) fn new(threads: u32) -> Self {
+            let threads = std::cmp::max(threads, 1) as usize;
+            let shared = Arc::new(Shared {
+                threads,
+                queue: Mutex::new(VecDeque::new()),
+                targeted: (0..threads).map(|_| Mutex::new(VecDeque::new())).collect(),
+                detached: (0..threads).map(|_| Mutex::new(VecDeque::new())).collect(),
+                shutdown: AtomicBool::new(false),
+            });
+            for index in 0..threads {
+                let shared = shared.clone();
+                verif::expect_thread("oxidd mi worker");
+                std::thread::Builder::new()
+                    .name(format!("oxidd mi {index}"))
+                    .stack_size(64 * 1024 * 1024)
+                    .spawn(move || StubPool::worker_loop(shared, index))
+                    .expect("could not spawn worker thread");
+            }
+            let split_depth = AtomicU32::new(Self::auto_split_depth(threads));
+            Self {
+                pool: StubPool { shared },
+                split_depth,
+            }
+        }
+
+        fn auto_split_depth(threads: usize) -> u32 {
+            if threads > 1 { (4096 * threads).ilog2() } else { 0 }
+        }
+    }
+
+    impl Drop for Workers {
+        fn drop(&mut self) {
+            self.pool.shared.shutdown.store(true, SeqCst);
+        }
+    }
+
+    impl oxidd_core::WorkerPool for Workers {
+        #[inline]
+        fn current_num_threads(&self) -> usize {
+            self.pool.shared.threads
+        }
+
+        #[inline(always)]
+        fn split_depth(&self) -> u32 {
+            self.split_depth.load(Relaxed)
+        }
+
+        fn set_split_depth(&self, depth: Option<u32>) {
+            let depth = match depth {
+                Some(d) => d,
+                None => Self::auto_split_depth(self.pool.shared.threads),
+            };
+            self.split_depth.store(depth, Relaxed);
+        }
+
+        #[inline]
+        fn install<RA: Send>(&self, op: impl FnOnce() -> RA + Send) -> RA {
+            self.pool.install(op)
+        }
+
+        #[inline]
+        fn join<RA: Send, RB: Send>(
+            &self,
+            op_a: impl FnOnce() -> RA + Send,
+            op_b: impl FnOnce() -> RB + Send,
+        ) -> (RA, RB) {
+            self.pool.join(op_a, op_b)
+        }
+
+        #[inline]
+        fn broadcast<RA: Send>(
+            &self,
+            op: impl Fn(oxidd_core::BroadcastContext) -> RA + Sync,
+        ) -> Vec<RA> {
+            self.pool.broadcast(op)
+        }
     }
 }
